@@ -32,6 +32,9 @@ func checkC10(P *Prog, r *Result) {
 	P.checkSanitizeAgreement(r)
 	P.checkTagReachesNested(r, "C10/tag-reaches-nested")
 	P.checkPathRender(r)
+	// a test's IssuePath option reaches the test that is stored: the options are applied to the call-local Test
+	// before it is copied into the schema (C17's option-locality rule)
+	shareRule(P, r, checkC17, "C17/option-locality", nil, "C10/issuepath-option-effective", 15)
 	_ = R
 }
 
